@@ -33,6 +33,7 @@ type request struct {
 	Op     string          `json:"op"`
 	X      []string        `json:"x"`
 	Raw    json.RawMessage `json:"raw"`
+	Other  []string        `json:"other"`
 	Prior  bool            `json:"prior"` // the variables hold derivatives of an earlier computation when activated
 }
 
@@ -522,15 +523,45 @@ func doDist(req request) map[string]interface{} {
 	if d == nil {
 		return map[string]interface{}{"err": "constructor returned nil without error"}
 	}
+	// args: [0] initial content of the result scalar, [1] constant of the wrapper; other: parameters of
+	// a second object of the same family
+	args := unhexs(req.Args)
+	other := unhexs(req.Other)
 	switch wrap {
 	case "log":
-		w, err := scalarDistribution.NewPdfLogTransform(d, 0.0)
+		w, err := scalarDistribution.NewPdfLogTransform(d, args[1])
+		if err != nil {
+			return map[string]interface{}{"rejected": err.Error()}
+		}
+		d = w
+	case "translate":
+		w, err := scalarDistribution.NewPdfTranslation(d, args[1])
 		if err != nil {
 			return map[string]interface{}{"rejected": err.Error()}
 		}
 		d = w
 	case "clone":
 		d = d.CloneScalarPdf()
+	case "set":
+		// an object built with other parameters receives these parameters through SetParameters
+		o, err := construct(family, ptype, other)
+		if err != nil {
+			return map[string]interface{}{"err": "second object rejected: " + err.Error()}
+		}
+		if err := o.SetParameters(d.GetParameters()); err != nil {
+			return map[string]interface{}{"err": "SetParameters failed: " + err.Error()}
+		}
+		d = o
+	case "cloneindep":
+		// a clone that is given other parameters must leave the original alone
+		c := d.CloneScalarPdf()
+		o, err := construct(family, ptype, other)
+		if err != nil {
+			return map[string]interface{}{"err": "second object rejected: " + err.Error()}
+		}
+		if err := c.SetParameters(o.GetParameters()); err != nil {
+			return map[string]interface{}{"err": "SetParameters failed: " + err.Error()}
+		}
 	case "setget":
 		// parameters written back through SetParameters must give the same object
 		if err := d.SetParameters(d.GetParameters()); err != nil {
@@ -543,6 +574,10 @@ func doDist(req request) map[string]interface{} {
 	errs := ""
 	for i, x := range xs {
 		r := NullScalar(t)
+		if len(args) > 0 {
+			// the result scalar holds the outcome of an earlier computation
+			r.SetFloat64(args[0])
+		}
 		var err error
 		switch req.Op {
 		case "logpdf":
@@ -556,12 +591,16 @@ func doDist(req request) map[string]interface{} {
 		case "cdf":
 			if q, ok := d.(interface{ Cdf(Scalar, ConstScalar) error }); ok {
 				err = q.Cdf(r, ConstFloat64(x))
+			} else if q, ok := d.(interface{ Cdf(Scalar, Vector) error }); ok {
+				err = q.Cdf(r, NewDenseFloat64Vector([]float64{x}))
 			} else {
 				return map[string]interface{}{"unsupported": "cdf"}
 			}
 		case "logcdf":
 			if q, ok := d.(interface{ LogCdf(Scalar, ConstScalar) error }); ok {
 				err = q.LogCdf(r, ConstFloat64(x))
+			} else if q, ok := d.(interface{ LogCdf(Scalar, Vector) error }); ok {
+				err = q.LogCdf(r, NewDenseFloat64Vector([]float64{x}))
 			} else {
 				return map[string]interface{}{"unsupported": "logcdf"}
 			}
